@@ -14,9 +14,9 @@ EXPLANATION = (
     "its first token only, of an alternation with `certainty` over all branches, and weakens an optional repetition to "
     "`sometimes`; (begin) every rooting leaf emitted by the encoder at an initial position has a language inside "
     "SEP.Sigma* (shared with the C01 emission table); (semantic) a literal sequence is semantic iff its text is `.` or "
-    "`..`, Glob::has_semantic_literals is `any` over Token::literals, and (dots) on a catalogue of buildable expressions with `.` / `..` at every position (after / before a separator or tree wildcard, at either end, inside alternations and repetitions two levels deep) Token::literals yields a semantic literal whenever a component delimited on both sides is spelled `.` or `..`.  That a built glob never reports `sometimes` "
+    "`..`, and (dots) on a catalogue of buildable expressions with `.` / `..` at every position (after / before a separator or tree wildcard, at either end, inside alternations and repetitions two levels deep) the public query Glob::has_semantic_literals, evaluated on a glob holding the tree (std::path calls through the abstract path model), answers true whenever a component delimited on both sides is spelled `.` or `..`.  That a built glob never reports `sometimes` "
     "follows from the rule checker (C06) and is reported there.")
-RULES = "C12.sound (TABLE on a catalogue: verdict vs. language), C12.rooting (TABLE), C12.begin (EMIT), C12.semantic (TABLE+EFFECT), C12.dots (TABLE on a catalogue: Token::literals vs. delimited dot components)"
+RULES = "C12.sound (TABLE on a catalogue: verdict vs. language), C12.rooting (TABLE), C12.begin (EMIT), C12.semantic (TABLE), C12.dots (TABLE on a catalogue: the public query Glob::has_semantic_literals vs. delimited dot components)"
 
 WHEN = "query::When"
 
@@ -24,7 +24,7 @@ WHEN = "query::When"
 def run(ctx):
     F = ctx.facts()
     R = ctx.report
-    R.assume("regex semantics; the parser delivers the tokens the expression denotes")
+    R.assume("regex semantics; the parser delivers the tokens the expression denotes (decided on the text catalogue of C01.parse)")
     R.undecided("`Token::literals` / `components` beyond the shapes of the dot catalogue (C12.dots); that a built glob is never "
                 "`sometimes` rooted is C06's clause")
     rule_rooting(F, R)
@@ -144,17 +144,8 @@ def rule_semantic(F, R):
         res = strip(tabulate.single(I.explore(lambda: I.call_item(it, [Ref(Place(Cell(seq)))]))))
         R.check(res is want, "C12.semantic", "is_semantic_literal(%r)" % (parts,), str(want), it.where(),
                 fail_msg="a component made of literals %r is judged semantic=%r, expected %s" % (parts, res, want))
-    # Glob::has_semantic_literals = any over Token::literals
-    g = F.find("Glob::has_semantic_literals")
-    for flags, want in (([], False), ([False], False), ([False, True], True), ([True], True)):
-        stubs = {"token::Token::literals": lambda I2, a, fn, e, flags=flags: models.iter_of(
-            I2, RList([Tup([Sym("component%d" % i), Adt("LS", "LS", {"flag": f})]) for i, f in enumerate(flags)]), by_ref=False),
-                 "token::LiteralSequence::is_semantic_literal": lambda I2, a, fn, e: strip(strip(a[0]).fields["flag"])}
-        I2 = Interp(F, stubs)
-        me = Adt("Glob", "Glob", {"tree": Sym("tree"), "program": Sym("program")})
-        res = strip(tabulate.single(I2.explore(lambda: I2.call_item(g, [Ref(Place(Cell(me)))]))))
-        R.check(res is want, "C12.semantic", "has_semantic_literals%r" % (flags,), str(want), g.where(),
-                fail_msg="with literal sequences flagged %r Glob::has_semantic_literals = %r, expected %s" % (flags, res, want))
+    # (that Glob::has_semantic_literals reports them is decided on the public query itself by C12.dots; a rule that
+    # pinned it to `any` over Token::literals was removed: it alarmed on any other correct route to the answer)
 
 
 # ---- C12.dots: `.` / `..` components anywhere in a buildable expression are reported ---------------------------------
@@ -301,20 +292,19 @@ def _dot_job(args):
         acc = None
     if acc is not True:
         return (_dot_text(recipe), "rejected" if acc is False else "undecided", None, None)
-    I = Interp(F)
-
-    def run():
-        its = I.call_item(lits, [Ref(Place(Cell(tree)))], inst=False)
-        out = []
-        for pair in models.drain(I, models.iter_of(I, its)):
-            pair = strip(pair)
-            out.append(strip(I.call_item(sem, [Ref(Place(Cell(pair.items[1])))])))
-        return RList(out)
-    cases = I.explore(run)
+    # the public query itself, on a glob holding this tree (whatever route it takes to its answer: Token::literals, the
+    # invariant text, std::path components - the latter through the abstract path model)
+    from . import pathmodel as PM
+    pub = _DOT_STATE["pub"]
+    ck = F.adt("rule::Checked")
+    inner = ck["variants"][0]["fields"][0]["name"] if ck and len(ck["variants"][0]["fields"]) == 1 else "inner"
+    me = Adt("Glob", "Glob", {"tree": Adt("rule::Checked", "Checked", {inner: Adt("token::Tokenized", "Tokenized", {
+        "expression": _dot_text(recipe), "token": tree})}), "program": Sym("program")})
+    I = Interp(F, PM.stubs())
+    cases = I.explore(lambda: I.call_item(pub, [Ref(Place(Cell(me)))]))
     got = None
-    if len(cases) == 1 and not I.tops and isinstance(strip(cases[0].result), RList) \
-            and all(isinstance(strip(x), bool) for x in strip(cases[0].result).items):
-        got = any(strip(x) for x in strip(cases[0].result).items)
+    if len(cases) == 1 and not I.tops and isinstance(strip(cases[0].result), bool):
+        got = strip(cases[0].result)
     return (_dot_text(recipe), "accepted", got, _dot_reference(recipe))
 
 
@@ -323,21 +313,23 @@ _DOT_STATE = {}
 
 def rule_dots(F, R, tier):
     """C12.dots: on a catalogue of buildable expressions with `.` / `..` at every position (first, middle, last; next to
-    a separator, a tree wildcard or an end; in an alternation, a repetition, two levels deep), `Token::literals` followed
-    by `is_semantic_literal` (= what Glob::has_semantic_literals folds with `any`, C12.semantic) reports a semantic
-    literal whenever the reference finds a delimited component spelled `.` or `..`."""
+    a separator, a tree wildcard or an end; in an alternation, a repetition, two levels deep), the public query
+    `Glob::has_semantic_literals`, evaluated on a glob holding the tree (through Token::literals and
+    is_semantic_literal today; std::path calls go to the abstract path model), answers true whenever the reference
+    finds a delimited component spelled `.` or `..`."""
     import multiprocessing, os
     from . import exhaust
     lits = F.find("token::Token::literals")
     sem = F.find("token::LiteralSequence::is_semantic_literal")
-    _DOT_STATE.update(J=exhaust.Judge(F), lits=lits, sem=sem)
+    pub = F.find("Glob::has_semantic_literals")
+    _DOT_STATE.update(J=exhaust.Judge(F), lits=lits, sem=sem, pub=pub)
     cat = _dot_catalogue(tier)
     # one computation per tree state (facts file) and state of the machinery; shared by repeated runs
     import fcntl, hashlib, json
     from .. import build
     h = hashlib.sha256()
     h.update(os.path.basename(F.path).encode())
-    for mod in ("rules/c12.py", "rules/exhaust.py", "rules/tokens.py", "teval.py", "models.py"):
+    for mod in ("rules/c12.py", "rules/exhaust.py", "rules/tokens.py", "rules/pathmodel.py", "teval.py", "models.py"):
         with open(os.path.join(build.VERIF, "sa", mod), "rb") as f:
             h.update(f.read())
     os.makedirs(os.path.join(build.CACHE, "exhaust"), exist_ok=True)
@@ -364,12 +356,11 @@ def rule_dots(F, R, tier):
             pos += 1
         if got is None:
             R.check(False, "C12.dots", text, "the literal components of the expression are decidable", lits.where(),
-                    fail_msg="Token::literals could not be evaluated on `%s` (fail closed)" % text)
+                    fail_msg="Glob::has_semantic_literals could not be evaluated on `%s` (fail closed)" % text)
         elif want:
             R.check(got is True, "C12.dots", text, "a component spelled `.` or `..` is reported", lits.where(),
                     fail_msg="`%s` has a component spelled entirely as `.` or `..` (delimited by separators, tree wildcards or the "
-                             "ends of the expression), yet no literal sequence yielded by Token::literals is a semantic literal: "
-                             "Glob::has_semantic_literals answers false" % text)
+                             "ends of the expression), yet Glob::has_semantic_literals answers false" % text)
         else:
             R.check(True, "C12.dots", text, "no delimited dot component (nothing demanded)", lits.where())
     R.floor("C12.dots", "buildable expressions examined", n, 6000 if tier != "thorough" else 30000)
